@@ -66,6 +66,8 @@ type realm struct {
 	// Session meta-procedure registration ID -> handler map.
 	metaProcMap map[wamp.ID]func(*wamp.Invocation) wamp.Message
 	metaDone    chan struct{}
+	// Closed when the handler for messages from the meta session has exited.
+	metaSessDone chan struct{}
 
 	closed    bool
 	closeLock sync.Mutex
@@ -98,21 +100,22 @@ func newRealm(config *RealmConfig, broker *broker, dealer *dealer, logger stdlog
 	}
 
 	r := &realm{
-		broker:      broker,
-		dealer:      dealer,
-		authorizer:  config.Authorizer,
-		clients:     map[wamp.ID]*wamp.Session{},
-		testaments:  map[wamp.ID]testamentBucket{},
-		actionChan:  make(chan func()),
-		stopped:     make(chan struct{}),
-		metaIDGen:   new(wamp.IDGen),
-		metaDone:    make(chan struct{}),
-		metaProcMap: make(map[wamp.ID]func(*wamp.Invocation) wamp.Message, 9),
-		log:         logger,
-		debug:       debug,
-		localAuth:   config.RequireLocalAuth,
-		localAuthz:  config.RequireLocalAuthz,
-		metaStrict:  config.MetaStrict,
+		broker:       broker,
+		dealer:       dealer,
+		authorizer:   config.Authorizer,
+		clients:      map[wamp.ID]*wamp.Session{},
+		testaments:   map[wamp.ID]testamentBucket{},
+		actionChan:   make(chan func()),
+		stopped:      make(chan struct{}),
+		metaIDGen:    new(wamp.IDGen),
+		metaDone:     make(chan struct{}),
+		metaSessDone: make(chan struct{}),
+		metaProcMap:  make(map[wamp.ID]func(*wamp.Invocation) wamp.Message, 9),
+		log:          logger,
+		debug:        debug,
+		localAuth:    config.RequireLocalAuth,
+		localAuthz:   config.RequireLocalAuthz,
+		metaStrict:   config.MetaStrict,
 
 		enableMetaKill:   config.EnableMetaKill,
 		enableMetaModify: config.EnableMetaModify,
@@ -289,6 +292,7 @@ func (r *realm) createMetaSession() {
 
 	// Run the handler for messages from the meta session.
 	go func() {
+		defer close(r.metaSessDone)
 		_, _, err := r.handleInboundMessages(r.metaSess)
 		if err != nil {
 			r.log.Println("meta session handler should never return error, got:", err)
@@ -752,30 +756,53 @@ func (r *realm) registerMetaProcedure(procedure wamp.URI, f func(*wamp.Invocatio
 
 func (r *realm) metaProcedureHandler() {
 	defer close(r.metaDone)
+	// Closed when the realm is shutting down and has told the meta session to
+	// stop. From then on nobody may be reading what is sent to the meta
+	// session, and its GOODBYE may not fit into the queue to this handler, so
+	// neither is waited for. The handler for the meta session's messages is
+	// waited for, since the dealer and broker must not be stopped under it.
+	stop := r.metaSess.RecvDone()
+	recv := r.metaPeer.Recv()
 	var rsp wamp.Message
-	for msg := range r.metaPeer.Recv() {
+	for {
+		var msg wamp.Message
+		var open bool
+		select {
+		case msg, open = <-recv:
+			if !open {
+				return
+			}
+		case <-stop:
+			<-r.metaSessDone
+			return
+		}
 		switch msg := msg.(type) {
 		case *wamp.Invocation:
 			metaProcHandler, ok := r.metaProcMap[msg.Registration]
 			if !ok {
-				r.metaPeer.Send() <- &wamp.Error{
+				rsp = &wamp.Error{
 					Type:    msg.MessageType(),
 					Request: msg.Request,
 					Details: wamp.Dict{},
 					Error:   wamp.ErrNoSuchProcedure,
 				}
-				continue
+			} else {
+				rsp = metaProcHandler(msg)
 			}
-			rsp = metaProcHandler(msg)
 		case *wamp.Goodbye:
 			if r.debug {
 				r.log.Print("Session meta procedure handler exiting GOODBYE")
 			}
+			<-r.metaSessDone
 			return
 		default:
 			r.log.Println("Meta procedure received unexpected", msg.MessageType())
+			continue
 		}
-		r.metaPeer.Send() <- rsp
+		select {
+		case r.metaPeer.Send() <- rsp:
+		case <-stop:
+		}
 	}
 }
 
